@@ -313,6 +313,15 @@ def str_method(it, recv, name, args, kw):
         return mk_bool(z3.PrefixOf(zstr(args[0]), e))
     if name == 'endswith':
         return mk_bool(z3.SuffixOf(zstr(args[0]), e))
+    if name in ('removeprefix', 'removesuffix') and len(args) == 1 \
+            and not kw and isinstance(args[0], (str, SStr)):
+        a = zstr(args[0])
+        la, le_ = z3.Length(a), z3.Length(e)
+        if name == 'removeprefix':
+            return mk_str(z3.If(z3.PrefixOf(a, e),
+                                z3.SubString(e, la, le_ - la), e))
+        return mk_str(z3.If(z3.SuffixOf(a, e),
+                            z3.SubString(e, 0, le_ - la), e))
     if name == 'find' and len(args) == 1:
         return mk_int(z3.IndexOf(e, zstr(args[0]), 0))
     if name == 'find' and len(args) == 2 and not kw:
